@@ -109,10 +109,15 @@ def gen_payload(rng, kind='any'):
     if rng.random() < 0.02:
         n = rng.choice([4000, 65527 - 4])
     k = rng.random()
+    if kind == 'json':
+        k = 0.4
+    elif kind == 'text':
+        k = 0.6
     if k < 0.3:
         return bytes(rng.randrange(256) for _ in range(n))
     if k < 0.5:
-        doc = rng.choice([{"a": 1}, {"Section Version": 9, "Data": "x"}, [1, 2, "three"], "just a string", 17, None, {"k\":": "v\"x\": y", "nest": {"x": [1, {"y": None}]}},
+        doc = rng.choice([{"a": 1}, {"Section Version": 9, "Data": "x"}, {"n": -5, "big": 2 ** 70, "t": True, "l": [[], {}, [[]]]}, "x" * rng.randrange(0, 50),
+                          {"k%d" % i: [i, str(i)] for i in range(rng.randrange(0, 12))}, [1, 2, "three"], "just a string", 17, None, {"k\":": "v\"x\": y", "nest": {"x": [1, {"y": None}]}},
                           {"é": "ü😀"}, {}, [], {"a": 1, "a": 2}])
         t = json.dumps(doc, ensure_ascii=rng.random() < 0.5).encode()
         return rng.choice([t, t + b'\0' * rng.randrange(1, 5), b'  ' + t + b' \n', t + b' \0\0', t[:-1], b'{' + t])
